@@ -189,6 +189,8 @@ let env_query (e : float env) (q : sx) : sx =
   | L [A "integrate"; s; en] -> rfloat (integrate fnum e (zi s) (zi en))
   | L [A "average"; s; en] -> rfloat (average fnum e (zi s) (zi en))
   | L [A "average_all"] -> rfloat (average fnum e Z0 (pdur e))
+  | L [A "average_from"; s] -> rfloat (average fnum e (zi s) (pdur e))
+  | L [A "average_to"; en] -> rfloat (average fnum e Z0 (zi en))
   | L [A "is_static"] -> L [A "ok"; A (if is_static fnum e then "1" else "0")]
   | L [A "points"] -> L [A "ok"; L (List.map spoint (to_points e))]
   | _ -> failwith ("unknown query " ^ show q)
